@@ -4,6 +4,8 @@ import common as C
 from props.c10 import safety_lit, table_lit
 
 ID = "C14"
+# files this check also depends on (the quick tier runs at the thorough sizes when one of them differs from the fingerprinted tree)
+EXTRA_FILES = ['src/constraints.rs']
 COQ_TARGETS = ["Exec/Collide.vo", "Gen/Forward.vo", "Properties/C14.vo"]
 THEOREMS = ["C14_offered_iff_spec", "C14_offsets_spec", "C14_candidate_changes_one_joint", "C14_skipped_links_unmoved"]
 LEVEL_TEXT = ("Coq theorem for every body configuration, safety table, oracle behaviour and scheduling choice: a single-joint candidate is "
